@@ -54,16 +54,18 @@ func (s *LStack[T]) Pop() (item T) {
 
 // Peek returns the last element of the stack without removing it.
 func (s *LStack[T]) Peek() T {
-	s.mu.RLock()
-	defer s.mu.RUnlock()
+	// DList.Last temporarily rewrites the list head, so a read lock is not enough.
+	s.mu.Lock()
+	defer s.mu.Unlock()
 
 	return s.list.Last()
 }
 
 // Search searches for an element in the stack.
 func (s *LStack[T]) Search(item T) bool {
-	s.mu.RLock()
-	defer s.mu.RUnlock()
+	// DList.Find rewrites the list head, so a read lock is not enough.
+	s.mu.Lock()
+	defer s.mu.Unlock()
 
 	if _, ok := s.list.Find(item); ok {
 		return true
